@@ -140,7 +140,11 @@ class Batch:
             os.makedirs(d)
             cc = c if cfg_override is None else dict(c, cfg=dict(c['cfg'], **cfg_override))
             cfg = mapcase.materialise_files(cc, d, style_fn(cc) if style_fn else None)
-            jobs.append({'fn': entry, 'args': {'config': cfg, 'cwd': d}})
+            py = mapcase.python_sources(cc)
+            if py:
+                jobs.append({'fn': 'mat_set_py', 'args': {'config': cfg, 'cwd': d, 'py': py}})
+            else:
+                jobs.append({'fn': entry, 'args': {'config': cfg, 'cwd': d}})
         ires = self.ctx.pool.map(jobs, timeout=timeout)
         for j in jobs:
             shutil.rmtree(j['args']['cwd'], ignore_errors=True)
